@@ -101,8 +101,14 @@ def bounds(tier, seed):
 
 
 def _big(spec):
-    n, m, sd = spec
+    n, m, sd = spec[:3]
     rng = np.random.default_rng([int(sd), n, m, 1010])
+    if len(spec) > 3 and spec[3] == "int":
+        # integer-valued columns of very different scale (counts 0..6 next to a population ~1e5): cond ~ 1e5, every
+        # direction well above the numerical-rank cut n * eps of double precision
+        X = rng.integers(0, 7, size=(n, m)).astype(float)
+        X[:, 0] = rng.integers(90000, 110000, size=n)
+        return X
     return np.round(rng.standard_normal((n, m)) * (0.7 ** np.arange(m)) * 256) / 256
 
 
@@ -117,19 +123,21 @@ def groups(tier, seed):
     # many rows (size-dependent code paths): 1200 x 4, and 5 x 1100 (wide)
     out.append(dict(label="big1200x4", big=[1200, 4, seed], seed=seed, tier=tier))
     out.append(dict(label="big6x1100", big=[6, 1100, seed], seed=seed, tier=tier))
+    out.append(dict(label="bigint1200x4", big=[1200, 4, seed, "int"], seed=seed, tier=tier))
     return out
 
 
 def cases(group):
     if "big" in group:
-        n, m, sd = group["big"]
+        n, m, sd = group["big"][:3]
         Xb = _big(group["big"])
+        isint = len(group["big"]) > 3
         for y in _ys(n, sd, Xb[:, :8])[:2]:
             for atype, grid in (("absolute", ABS_GRID), ("relative", REL_GRID)):
                 for method in ("tikhonov", "cutoff"):
                     for scoring in SCORERS:
                         for f in (dict(kind="kfold", shuffle=False, seed=None), dict(kind="kfold", shuffle=True, seed=1)):
-                            yield dict(big=group["big"], y=y, alphas=grid, alpha_type=atype, method=method, scoring=scoring, fold=f, n_jobs=None)
+                            yield dict(big=group["big"], y=y, alphas=grid, alpha_type=atype, method=method, scoring=scoring, fold=f, n_jobs=None, int_dtype=isint)
         return
     X = group["X"]
     n = len(X)
